@@ -1,6 +1,7 @@
 import CobyqaVerif.Alg.Solve
 import CobyqaVerif.Props.C04
 import CobyqaVerif.Alg.Tcg
+import CobyqaVerif.Alg.TcgImproveFast
 import CobyqaVerif.Alg.Cauchy
 import CobyqaVerif.Alg.Spider
 import CobyqaVerif.Model.Arith
@@ -295,6 +296,31 @@ def doTcg (n fuel : ℕ) (parts : List String) : String :=
     | _, _, _, _, _ => "bad-op"
   | _ => "bad-op"
 
+/-- `tcg2 n fuel fuel2 improve | ...`: `tangential_byrd_omojokun` as a whole (Alg/TcgImprove.lean `tcgFull`); the answer
+starts with `ok1` when the first phase ended on the trust-region boundary -/
+def doTcg2 (n fuel fuel2 : ℕ) (imp : Bool) (parts : List String) : String :=
+  match parts with
+  | [g, H, lo, hi, d] =>
+    match ratsOf g, ratsOf H, optsOf lo, optsOf hi, ratsOf d with
+    | some g, some H, some lo, some hi, some d =>
+      if g.size ≠ n || H.size ≠ n * n || lo.size ≠ n || hi.size ≠ n || d.size ≠ 1 then "bad-op" else
+      let P : Cobyqa.Tcg.Prob n Rat :=
+        { H := fun i j => H[i.val * n + j.val]!, g := vecOf g, xl := fun i => lo[i.val]!, xu := fun i => hi[i.val]!, delta := d[0]! }
+      let eps : Rat := 1 / 2 ^ 52
+      let Q : Cobyqa.Tcg.Params n Rat :=
+        { aTr := Cobyqa.Tcg.checkedATr P.delta (proposeATr n P.delta),
+          descThr := fun gr => 10 * eps * n * max 1 (floatToRat (Float.sqrt (ratToFloat (gr ⬝ᵥ gr))) * (1 + 1 / 2 ^ 40)),
+          tiny := 0, rtol := 1 / 100000000 }
+      -- second phase: `np.sqrt` as the binary64 square root of the exact argument, `int(17 t_bd + 3)` as a floor
+      let R : Cobyqa.Tcg.IParams Rat :=
+        { sqrtO := fun x => floatToRat (Float.sqrt (ratToFloat x)), tiny := 0, rtol := 1 / 100000000,
+          nsOf := fun t => (17 * t + 3).floor.toNat }
+      -- `tcgFullFast` = (`tcgFull`, `boundary_reached`): Props/C15ImproveFast.lean
+      let r := Cobyqa.Tcg.tcgFullFast P Q R fuel fuel2 imp
+      (if r.2 then "ok1 " else "ok0 ") ++ " ".intercalate ((listFin n).map fun i => showRat (r.1 i))
+    | _, _, _, _, _ => "bad-op"
+  | _ => "bad-op"
+
 /-! `cauchy n | const ; g ; H ; xl ; xu ; delta ; c1 ; c2 ; sn1 sn2`  -> `ok step..`: `Cobyqa.Cauchy.cauchyGeometry` for the two
 directions `c1`, `c2` (the Cauchy directions of the two calls of `_cauchy_geom`) and their norms -/
 def doCauchy (n : ℕ) (parts : List String) : String :=
@@ -335,6 +361,10 @@ def handleAlg (line : String) : String :=
     | ["kkt", n, m, me, r] => match n.toNat?, m.toNat?, me.toNat?, r.toNat? with
       | some n, some m, some me, some r => doKkt n m me r parts | _, _, _, _ => "bad-op"
     | ["tcg", n, fuel] => match n.toNat?, fuel.toNat? with | some n, some f => doTcg n f parts | _, _ => "bad-op"
+    | ["tcg2", n, fuel, fuel2, imp] =>
+      match n.toNat?, fuel.toNat?, fuel2.toNat? with
+      | some n, some f, some f2 => doTcg2 n f f2 (imp == "1") parts
+      | _, _, _ => "bad-op"
     | ["cauchy", n] => match n.toNat? with | some n => doCauchy n parts | _ => "bad-op"
     | ["spider", n, p] => match n.toNat?, p.toNat? with | some n, some p => doSpider n p parts | _, _ => "bad-op"
     | ["ball", n] => match n.toNat? with | some n => doBall n parts | _ => "bad-op"
